@@ -139,16 +139,18 @@ Print Assumptions rft_call_with_inplace_mul_refuted.
    (Horner evaluation, highest power first, as np.poly1d does) satisfy He_0 = 1, He_1 = x, He_{n+2} = x He_{n+1} - (n+1) He_n
    at every integer x - which determines the polynomial. *)
 Theorem hermitenorm_coeffs_three_term_recurrence : forall n x,
-  hev (hermitenorm_coeffs 0) x = 1 /\ hev (hermitenorm_coeffs 1) x = x /  hev (hermitenorm_coeffs (S (S n))) x = x * hev (hermitenorm_coeffs (S n)) x - Z.of_nat (S n) * hev (hermitenorm_coeffs n) x.
-Proof. intros n x. destruct (herm_base x) as [A B]. repeat split; [exact A|exact B|apply herm_recurrence]. Qed.
+  hev (hermitenorm_coeffs 0) x = 1 /\ hev (hermitenorm_coeffs 1) x = x /\
+  hev (hermitenorm_coeffs (S (S n))) x = x * hev (hermitenorm_coeffs (S n)) x - Z.of_nat (S n) * hev (hermitenorm_coeffs n) x.
+Proof. intros n x. destruct (herm_base x) as [A B]. split; [exact A|split; [exact B|apply herm_recurrence]]. Qed.
 Print Assumptions hermitenorm_coeffs_three_term_recurrence.
 
 (* (13) ... and the vector has exactly n+1 entries (the padding `[0]*(len(shifted)-len(a))` never truncates in `zip`), is
    monic, and every coefficient at odd distance from the leading one is exactly 0 (He_n has the parity of n: no spurious
    odd-parity coefficients, the defect of the former np.around(hermitenorm(n).c)), for every n. *)
 Theorem hermitenorm_coeffs_degree_monic_parity : forall n,
-  length (hermitenorm_coeffs n) = S n /\ nth 0 (hermitenorm_coeffs n) 0 = 1 /  (forall i, Nat.odd i = true -> nth i (hermitenorm_coeffs n) 0 = 0).
-Proof. intros n. repeat split; [apply herm_length|apply herm_monic|apply herm_parity]. Qed.
+  length (hermitenorm_coeffs n) = S n /\ nth 0 (hermitenorm_coeffs n) 0 = 1 /\
+  (forall i, Nat.odd i = true -> nth i (hermitenorm_coeffs n) 0 = 0).
+Proof. intros n. split; [apply herm_length|split; [apply herm_monic|apply herm_parity]]. Qed.
 Print Assumptions hermitenorm_coeffs_degree_monic_parity.
 
 (* non-vacuity *)
